@@ -149,7 +149,8 @@ def r1(chk, f):
             v = st.value
             if isinstance(v, ast.ListComp):
                 elt, tgt, it, ifs = aud.single_gen(v)
-                ok = it is call and not ifs and isinstance(tgt, ast.Tuple) and norm(elt) == norm(tgt.elts[0])
+                ok = it is call and not ifs and ((isinstance(tgt, ast.Tuple) and norm(elt) == norm(tgt.elts[0])) or
+                                                 (isinstance(tgt, ast.Name) and norm(elt) == f"{tgt.id}[0]"))  # the index of the (index, card) pair
         if arg in ("range(len(cvr_list))",) and body == f"cvr_list[{p}].sample_num" and st.value is call:
             ok = True
     chk.ob("C07.R1", where, "ascending-by-sample_num", ok,
